@@ -21,7 +21,7 @@ EXPLANATION += (  # round-3 supplement
     ' I7 declare_type looks earlier registrations up by TypeId alone, a hit is an error, the entry is added afterwards. I8 rust_type_to_roto_type maps each constructor to the Roto constructor of the same name with its components in order.'
 )
 EXPLANATION += (
-    ' I9 sibling agreement of the recursive registration passes: each descends into a module (or impl) with the scope looked up for it, never with the scope it was called with. I10 an import is registered only after the imported name was found (some function between Rt::declare_import and the insertion gates the onward call on a lookup of the same name). I11 a context type is stored only after every field type was found among the types of this runtime (discharges the unwrap in TypeChecker::declare_context). I12 name validation: the Ok exit of check_name_internal is decided by a comparison of the lexed token\'s span with the extent of the whole name.'
+    ' I9 sibling agreement of the recursive registration passes: each descends into a module (or impl) with the scope looked up for it, never with the scope it was called with. I10 an import is registered only after the imported name was found (some function between Rt::declare_import and the insertion gates the onward call on a lookup of the same name). I11 a context type is stored only after every field type was found among the types of this runtime (discharges the unwrap in TypeChecker::declare_context). I12 name validation: the Ok exit of check_name_internal is decided by a comparison of the lexed token\'s span with the extent of the whole name. I13 a registered type cannot take a name that is already taken in its scope, including the names of the primitives (name lookup in Rt::declare_type decides the hand-over to the type checker; the primitive skip of declare_runtime_type is scope-local).'
 )
 ASSUMPTIONS = [
     "crate-internal generic signatures (Function::new_generic, pub(crate) unsafe) are well-formed: parse_sig/evaluate_type_expr unwraps are reachable only from there",
@@ -304,9 +304,11 @@ def rule_i7(F):
     look = None
     for c in hir.nodes(h, "mcall"):
         if c["m"] in ("find", "any", "position") and any(n.get("k") == "field" and n.get("n") == "types" for n in hir.walk(c["recv"])) and c["args"]:
-            look = c
+            # the lookup whose predicate is about the Rust type (another one may look for the name: rule I13)
+            if any(n.get("k") == "field" and n.get("n") == "type_id" for n in hir.walk(c["args"][0])):
+                look = c
     if look is None:
-        r.missing("lookup over self.types in declare_type")
+        r.missing("lookup over self.types by type id in declare_type")
         return r
     cl = hir.strip(look["args"][0])
     body = hir.strip(cl.get("body") or {}) if cl.get("k") == "closure" else {}
@@ -629,6 +631,70 @@ def rule_i12(F):
     return r
 
 
+def rule_i13(F):
+    """A name is taken at most once per scope - also the names of the primitives.  The type checker knows the primitives before the
+    basic library registers them and therefore skips a registration whose name resolves to a primitive; that skip must not swallow a
+    DIFFERENT Rust type registered under such a name (it would silently get the primitive's Roto type: a `Val<Foo>` readable as
+    `u8`).  Decided: (a) Rt::declare_type refuses a second type with the same (scope, name) before it hands the type to the type
+    checker; (b) the skip in declare_runtime_type looks the name up in the given scope only (not in enclosing scopes)."""
+    r = RuleResult("C18.I13", "a registered type cannot take the name of a primitive (or of another registered type) of its scope", floor=2)
+    b = F.body("runtime::Rt::declare_type")
+    if b is None or not b.mir:
+        r.missing("runtime::Rt::declare_type")
+        return r
+    defs = mir.Defs(b)
+    dom = mir.dominators(b)
+    onward = [bi for bi, t in mir.calls(b) if hir.last(mir.callee(t) or "") == "declare_runtime_type"]
+    # lookups among self.types whose closure compares names
+    name_lookups = []
+    for bi, t in mir.calls(b):
+        if hir.last(mir.callee_def(t) or "") not in ("find", "any", "position", "all"):
+            continue
+        a0 = t["args"][0] if t["args"] else None
+        if not (mir.is_place_op(a0) and any(".types" in x for x in deps(b, defs, a0[1][0]))):
+            continue
+        cl = None
+        for a in t["args"][1:]:
+            if mir.is_place_op(a):
+                for d in defs.whole_defs(a[1][0]):
+                    if d[2] == "assign" and d[3]["rv"]["k"] == "agg" and d[3]["rv"].get("ak") == "closure":
+                        cl = F.body(d[3]["rv"]["def"])
+        if cl is not None and cl.hir and any(n.get("k") == "field" and n.get("n") == "name" for n in hir.walk(cl.hir["value"])) \
+                and not any(n.get("k") == "field" and n.get("n") == "type_id" for n in hir.walk(cl.hir["value"])):
+            name_lookups.append(bi)
+    decided = any(mir.decided_by(b, defs, dom, lb, ob) for lb in name_lookups for ob in onward)
+    r.inst("declare_type: name already taken", {"name_lookups": len(name_lookups), "decides_declare_runtime_type": decided})
+    if not onward:
+        r.missing("call of declare_runtime_type in Rt::declare_type")
+    elif not decided:
+        r.bad(b.path, "second type under a taken name", relfile(b.file), b.line,
+              "Rt::declare_type does not refuse a type whose (scope, name) is already taken by a registered type before handing it to the type checker, which skips names that resolve to a "
+              "primitive: `type u8 = Val<Foo>` registers, and every `Val<Foo>` is then typed `u8` in scripts (`fn f() -> u8 { make_foo() }` is retrievable as `fn() -> u8`)")
+    tb = None
+    for p_ in F.paths():
+        if p_.endswith("TypeChecker::declare_runtime_type"):
+            tb = F.body(p_)
+    if tb is None or not tb.mir:
+        r.missing("TypeChecker::declare_runtime_type")
+        return r
+    rn = [(bi, t) for bi, t in mir.calls(tb) if hir.last(mir.callee(t) or "") == "resolve_name" and len(t["args"]) == 4]
+    for bi, t in rn:
+        c = mir.op_const(t["args"][3])
+        tdefs = mir.Defs(tb)
+        val = c.get("v") if c is not None else None
+        if c is None and mir.is_place_op(t["args"][3]):
+            root, _p = mir.origin(tb, tdefs, t["args"][3][1])
+            val = {"const:true": 1, "const:false": 0}.get(root, None)
+        r.inst("declare_runtime_type: primitive lookup", {"line": t.get("line"), "searches_enclosing_scopes": val not in (0, False)})
+        if val not in (0, False):
+            r.bad(tb.path, "primitive skip looks into enclosing scopes", relfile(tb.file), t.get("line"),
+                  "the registration of a type is skipped when its name resolves to a primitive in ANY enclosing scope: `mod m { type u32 = Val<Foo>; }` registers without a declaration "
+                  "for m.u32, and a script that uses a function returning it hits an internal compiler error")
+    if not rn:
+        r.missing("the lookup of the primitive names in declare_runtime_type")
+    return r
+
+
 def rules(ctx):
     F = ctx["F"]
-    return [rule_i1(F), rule_i2(F), rule_i3(F), rule_i4(F), rule_i5(F), rule_i6(F), rule_i7(F), rule_i8(F), rule_i9(F), rule_i10(F), rule_i11(F), rule_i12(F)]
+    return [rule_i1(F), rule_i2(F), rule_i3(F), rule_i4(F), rule_i5(F), rule_i6(F), rule_i7(F), rule_i8(F), rule_i9(F), rule_i10(F), rule_i11(F), rule_i12(F), rule_i13(F)]
